@@ -1,9 +1,228 @@
 import BrushVerif.Drv.C02
-/-! Driver for C03: same request/response as C02 (programs may toggle options and use command
-substitutions, eval and pipelines). -/
-namespace BrushVerif.Drv.C03
-open BrushVerif.Wire
+import BrushVerif.Model.Nounset
+import BrushVerif.Spec.Nounset
+/-! Driver for C03.
 
-def handle (toks : List Str) : Str := BrushVerif.Drv.C02.handle toks
+* control-flow programs: same request/response as C02 (programs may toggle options and use command
+  substitutions, eval and pipelines);
+* `nounset <placement S|N|F> <nounset 0|1> <nargs> a… <nvars> (name value)… <stmt>` — the `set -u`
+  decision table.  Response: `<model decision> <model shown> | <bash decision> <bash shown>` with
+  decisions `ok|fail|abort` and shown = three bits (status non-zero, `after` printed, `inner` printed).
+
+  value: `U` | `Ui` | `Ua` | `S <esc>` | `I <k> (<idx> <esc>)…` | `A <k> (<esc key> <esc>)…`
+  stmt:  `W <n> expr…` | `AC a` | `LET a` | `CND a` | `FOR a` | `AIX a`
+  expr:  `v <pl|rm|rep|cm|xf> <ind 0|1> param` | `v sub <ind> param a (- | + a)` |
+         `t <-|=|?|+> <colon 0|1> param (wl <esc> | wr param)` | `len param` | `names <esc>` | `keys <name>` | `ar a`
+  param: `p <n>` | `s <@|*|#|?|-|$|0>` | `n <name>` | `i <name> N <n>` | `i <name> K <name>` | `a <name> <@|*>`
+  a:     `L <int>` | `V x` | `X x a` | `NEG a` | `NOT a` | `ADD a a` | `LT a a` | `COM a a` | `AND a a` | `OR a a` |
+         `CND a a a` | `ASN x a` | `INC x`
+-/
+namespace BrushVerif.Drv.C03
+open BrushVerif.Wire BrushVerif.Nounset
+
+def isIdent (s : Str) : Bool :=
+  match s with
+  | [] => false
+  | c :: _ => (c.isAlpha || c = '_') && s.all (fun d => d.isAlphanum || d = '_')
+
+/-- what `arithmetic::parse` makes of the texts the table stores in variables -/
+def parseArithText (s : Str) : Option AExpr :=
+  if s.isEmpty then some (.lit 0)
+  else match parseInt? s with
+    | some n => some (.lit n)
+    | none => if isIdent s then some (.var s) else none
+
+/-- what `parse_parameter` makes of the texts the table stores in variables -/
+def parseParamText (s : Str) : Option Parameter :=
+  match parseNat? s with
+  | some n => some (.positional n)
+  | none => if isIdent s then some (.named s) else none
+
+def parsers : Parsers := { arith := parseArithText, param := parseParamText, fuel := 64 }
+
+def parseA : Nat → List Str → Option (AExpr × List Str)
+  | 0, _ => none
+  | f + 1, t :: r =>
+    let un (k : AExpr → AExpr) := (parseA f r).map (fun (a, r) => (k a, r))
+    let bin (k : AExpr → AExpr → AExpr) :=
+      match parseA f r with
+      | some (a, r1) => (parseA f r1).map (fun (b, r2) => (k a b, r2))
+      | none => none
+    if t = "L".toList then
+      match r with
+      | n :: r => (parseInt? n).map (fun n => (.lit n, r))
+      | _ => none
+    else if t = "V".toList then
+      match r with
+      | x :: r => some (.var x, r)
+      | _ => none
+    else if t = "X".toList then
+      match r with
+      | x :: r => (parseA f r).map (fun (a, r) => (.elem x a, r))
+      | _ => none
+    else if t = "NEG".toList then un .neg
+    else if t = "NOT".toList then un .not
+    else if t = "ADD".toList then bin .add
+    else if t = "LT".toList then bin .lt
+    else if t = "COM".toList then bin .comma
+    else if t = "AND".toList then bin .land
+    else if t = "OR".toList then bin .lor
+    else if t = "CND".toList then
+      match parseA f r with
+      | some (c, r1) =>
+        match parseA f r1 with
+        | some (a, r2) => (parseA f r2).map (fun (b, r3) => (.cond c a b, r3))
+        | none => none
+      | none => none
+    else if t = "ASN".toList then
+      match r with
+      | x :: r => (parseA f r).map (fun (a, r) => (.assign x a, r))
+      | _ => none
+    else if t = "INC".toList then
+      match r with
+      | x :: r => some (.postIncr x, r)
+      | _ => none
+    else none
+  | _, [] => none
+
+def parseParam : List Str → Option (Parameter × List Str)
+  | ['p'] :: n :: r => (parseNat? n).map (fun n => (.positional n, r))
+  | ['s'] :: [c] :: r =>
+    let sp : Option Special := match c with
+      | '@' => some (.allPos false) | '*' => some (.allPos true) | '#' => some .count | '?' => some .status
+      | '-' => some .flags | '$' => some .pid | '0' => some .shellName | _ => none
+    sp.map (fun s => (.special s, r))
+  | ['n'] :: x :: r => some (.named x, r)
+  | ['i'] :: x :: ['N'] :: n :: r => (parseNat? n).map (fun n => (.namedIdx x (.num n), r))
+  | ['i'] :: x :: ['K'] :: k :: r => some (.namedIdx x (.name k), r)
+  | ['a'] :: x :: [c] :: r => some (.namedAll x (c = '*'), r)
+  | _ => none
+
+def parseExpr (toks : List Str) : Option (Expr × List Str) :=
+  match toks with
+  | ['v'] :: op :: ind :: r =>
+    match parseParam r with
+    | none => none
+    | some (p, r1) =>
+      let indirect := ind = ['1']
+      if op = "sub".toList then
+        match parseA (r1.length + 1) r1 with
+        | none => none
+        | some (off, ['-'] :: r2) => some (.value (.substring off none) p indirect, r2)
+        | some (off, ['+'] :: r2) =>
+          (parseA (r2.length + 1) r2).map (fun (l, r3) => (.value (.substring off (some l)) p indirect, r3))
+        | _ => none
+      else
+        let vo : Option ValueOp :=
+          if op = "pl".toList then some .plain else if op = "rm".toList then some .removePattern
+          else if op = "rep".toList then some .replace else if op = "cm".toList then some .caseMod
+          else if op = "xf".toList then some .transform else none
+        vo.map (fun o => (.value o p indirect, r1))
+  | ['t'] :: [o] :: colon :: r =>
+    let op : Option BrushVerif.ParamOps.TestOp := match o with
+      | '-' => some .useDefault | '=' => some .assignDefault | '?' => some .errorIfUnset | '+' => some .useAlternative
+      | _ => none
+    match op, parseParam r with
+    | some op, some (p, ['w', 'l'] :: w :: r1) => some (.test op (colon = ['1']) p (.lit (unesc w)), r1)
+    | some op, some (p, ['w', 'r'] :: r1) =>
+      (parseParam r1).map (fun (q, r2) => (.test op (colon = ['1']) p (.ref q), r2))
+    | _, _ => none
+  | ['l', 'e', 'n'] :: r => (parseParam r).map (fun (p, r1) => (.length p, r1))
+  | ['n', 'a', 'm', 'e', 's'] :: x :: r => some (.names (unesc x), r)
+  | ['k', 'e', 'y', 's'] :: x :: r => some (.keys x, r)
+  | ['a', 'r'] :: r => (parseA (r.length + 1) r).map (fun (a, r1) => (.arith a, r1))
+  | _ => none
+
+def parseExprs : Nat → List Str → Option (List Expr × List Str)
+  | 0, r => some ([], r)
+  | n + 1, r =>
+    match parseExpr r with
+    | none => none
+    | some (x, r1) => (parseExprs n r1).map (fun (xs, r2) => (x :: xs, r2))
+
+def parseStmt (toks : List Str) : Option Stmt :=
+  match toks with
+  | ['W'] :: n :: r =>
+    match parseNat? n with
+    | none => none
+    | some n =>
+      match parseExprs n r with
+      | some (es, []) => some (.words es)
+      | _ => none
+  | k :: r =>
+    match parseA (r.length + 1) r with
+    | some (a, []) =>
+      if k = "AC".toList then some (.arithCmd a) else if k = "LET".toList then some (.letCmd a)
+      else if k = "CND".toList then some (.condArith a) else if k = "FOR".toList then some (.arithFor a)
+      else if k = "AIX".toList then some (.assignIdx a) else none
+    | _ => none
+  | [] => none
+
+def parsePairsN : Nat → List Str → Option (List (Nat × Str) × List Str)
+  | 0, r => some ([], r)
+  | n + 1, i :: v :: r =>
+    match parseNat? i, parsePairsN n r with
+    | some i, some (ps, r1) => some ((i, unesc v) :: ps, r1)
+    | _, _ => none
+  | _, _ => none
+
+def parsePairsS : Nat → List Str → Option (List (Str × Str) × List Str)
+  | 0, r => some ([], r)
+  | n + 1, k :: v :: r => (parsePairsS n r).map (fun (ps, r1) => ((unesc k, unesc v) :: ps, r1))
+  | _, _ => none
+
+def parseValue : List Str → Option (Value × List Str)
+  | ['U'] :: r => some (.unset .untyped, r)
+  | ['U', 'i'] :: r => some (.unset .indexed, r)
+  | ['U', 'a'] :: r => some (.unset .assoc, r)
+  | ['S'] :: s :: r => some (.str (unesc s), r)
+  | ['I'] :: k :: r => (parseNat? k).bind (fun k => (parsePairsN k r).map (fun (ps, r1) => (.indexed ps, r1)))
+  | ['A'] :: k :: r => (parseNat? k).bind (fun k => (parsePairsS k r).map (fun (ps, r1) => (.assoc ps, r1)))
+  | _ => none
+
+def parseVars : Nat → List Str → Option (List (Str × Value) × List Str)
+  | 0, r => some ([], r)
+  | n + 1, x :: r =>
+    match parseValue r with
+    | none => none
+    | some (v, r1) => (parseVars n r1).map (fun (vs, r2) => ((x, v) :: vs, r2))
+  | _, _ => none
+
+def decStr : Decision → Str
+  | .ok => "ok".toList
+  | .fail => "fail".toList
+  | .abort => "abort".toList
+
+def shownStr (s : Shown) : Str :=
+  let b (x : Bool) := if x then '1' else '0'
+  [b s.failed, b s.after, b s.inner]
+
+def handleNounset (toks : List Str) : Str :=
+  match toks with
+  | [pl] :: nu :: na :: r =>
+    let placement : Placement := if pl = 'S' then .sameLine else if pl = 'F' then .inFunc else .nextLine
+    match parseNat? na with
+    | none => "ERR args".toList
+    | some na =>
+      let args := (r.take na).map unesc
+      match r.drop na with
+      | nv :: r1 =>
+        match (parseNat? nv).bind (fun nv => parseVars nv r1) with
+        | none => "ERR vars".toList
+        | some (vs, r2) =>
+          match parseStmt r2 with
+          | none => "ERR stmt".toList
+          | some st =>
+            let env : Env := { vars := fun n => (vs.find? (fun p => p.1 = n)).map (·.2), args := args, nounset := nu = ['1'] }
+            let m := nounsetDecision parsers env st
+            let b := BrushVerif.NounsetSpec.bashDecision parsers env st
+            decStr m ++ [' '] ++ shownStr (shown placement m) ++ " | ".toList ++ decStr b ++ [' '] ++ shownStr (shown placement b)
+      | [] => "ERR vars".toList
+  | _ => "ERR request".toList
+
+def handle (toks : List Str) : Str :=
+  match toks with
+  | t :: r => if t = "nounset".toList then handleNounset r else BrushVerif.Drv.C02.handle toks
+  | [] => BrushVerif.Drv.C02.handle toks
 
 end BrushVerif.Drv.C03
